@@ -11,13 +11,23 @@ def sh(cmd, timeout=3600, env=None):
     return p.returncode, p.stdout
 
 def demo(path):
+    # a demonstration written against the sub-agent's scratch worktree runs against /repo here
+    import re, tempfile
+    txt = open(path).read()
+    new = re.sub(r"/tmp/seed_C\d+(?![_\d\w])", "/repo", txt)
+    if new != txt:
+        d = tempfile.mkdtemp(prefix="seeddemo_")
+        path2 = os.path.join(d, os.path.basename(path))
+        open(path2, "w").write(new)
+        path = path2
     if path.endswith("_test.py") or os.path.basename(path).startswith("test_"):
         return sh("cd /tmp && PYTHONPATH=/repo /venv/bin/python -m pytest -q -p no:cacheprovider %s" % path, 900)
     return sh("cd /tmp && PYTHONPATH=/repo /venv/bin/python %s" % path, 900)
 
 def main():
     sd, patch, dm = sys.argv[1:4]
-    checks = sys.argv[4:]
+    checks = [c for c in sys.argv[4:] if not c.startswith("--")]
+    reuse = [c[len("--reuse="):] for c in sys.argv[4:] if c.startswith("--reuse=")]
     out = {"seed": sd, "patch": patch, "demo": dm, "checks": {}}
     rc, o = sh("git -C /repo status --porcelain --untracked-files=no")
     if o.strip():
@@ -26,8 +36,12 @@ def main():
     if rc != 0:
         print("patch does not apply:\n" + o); return 2
     try:
-        rc, o = sh("python3 /verif/tools/baseline.py", 1800)
-        out["baseline_with_change"] = {"rc": rc, "tail": o.strip().split("\n")[-3:]}
+        old = json.load(open(reuse[0])) if reuse and os.path.exists(reuse[0]) else None
+        if old and old.get("baseline_with_change", {}).get("rc") == 0:
+            out["baseline_with_change"] = old["baseline_with_change"]    # same patch, measured in the first evaluation
+        else:
+            rc, o = sh("python3 /verif/tools/baseline.py", 1800)
+            out["baseline_with_change"] = {"rc": rc, "tail": o.strip().split("\n")[-3:]}
         rc, o = demo(dm)
         out["demo_with_change"] = {"rc": rc, "tail": o.strip().split("\n")[-6:]}
         for c in checks:
